@@ -20,8 +20,13 @@ EXTENDS Integers, Sequences, FiniteSets, TLC
 BFOf(code) == CASE code = 0 -> 2 [] code = 1 -> 4 [] code = 2 -> 8 [] code = 3 -> 32
 MaxHeight(bf) == CASE bf = 2 -> 31 [] bf = 4 -> 16 [] bf = 8 -> 11 [] bf = 32 -> 7
 
+\* Arithmetic on positions saturates at Cap = 2^30: every maximum used in the models and traces is below Cap, so a
+\* saturated start or end is beyond the maximum exactly when the true value is (tall trees span up to 2^35).
+Cap == 1073741824
+MulCap(i, p) == IF i = 0 THEN 0 ELSE IF p > Cap \div i THEN Cap ELSE i * p
+AddCap(a, b) == IF a >= Cap - b THEN Cap ELSE a + b
 RECURSIVE Pow(_, _)
-Pow(b, e) == IF e = 0 THEN 1 ELSE b * Pow(b, e - 1)
+Pow(b, e) == IF e = 0 THEN 1 ELSE MulCap(b, Pow(b, e - 1))
 
 HeaderBF(bytes) == BFOf(bytes[1] % 4)
 HeaderH(bytes)  == (bytes[1] \div 4) % 32
@@ -56,12 +61,12 @@ Step(bytes, st) ==
               fin(q) == IF q = <<>> THEN "done" ELSE "run"
           IN IF bits = {}
              THEN [status |-> fin(rest), queue |-> rest, pos |-> pos2,
-                   out |-> st.out \cup {<<n.start, n.start + Pow(bf, h - n.depth + 1) - 1>>}]
+                   out |-> st.out \cup {<<n.start, AddCap(n.start, Pow(bf, h - n.depth + 1)) - 1>>}]
              ELSE IF n.depth = h
              THEN [status |-> fin(rest), queue |-> rest, pos |-> pos2,
-                   out |-> st.out \cup {<<n.start + i, n.start + i>> : i \in bits}]
+                   out |-> st.out \cup {<<AddCap(n.start, i), AddCap(n.start, i)>> : i \in bits}]
              ELSE LET kids == [k \in 1..Cardinality(bits) |->
-                                 [start |-> n.start + SortedSeq(bits)[k] * Pow(bf, h - n.depth), depth |-> n.depth + 1]]
+                                 [start |-> AddCap(n.start, MulCap(SortedSeq(bits)[k], Pow(bf, h - n.depth))), depth |-> n.depth + 1]]
                   IN [status |-> "run", queue |-> rest \o kids, pos |-> pos2, out |-> st.out]
 
 RECURSIVE RunFrom(_, _)
@@ -69,7 +74,7 @@ RunFrom(bytes, st) == IF st.status = "run" THEN RunFrom(bytes, Step(bytes, st)) 
 
 \* apply bias and maximum to the raw ranges
 Biased(out, bias, max) ==
-  {<<r[1] + bias, IF r[2] + bias > max THEN max ELSE r[2] + bias>> : r \in {q \in out : q[1] + bias <= max}}
+  {<<r[1] + bias, IF AddCap(r[2], bias) > max THEN max ELSE r[2] + bias>> : r \in {q \in out : AddCap(q[1], bias) <= max}}
 
 \* the complete result: error, or value ranges + number of unread bytes
 Decode(bytes, bias, max) ==
